@@ -57,6 +57,29 @@ fn run(cp: &CompiledPredicate, len: usize) -> (Vec<[f64; CHUNK]>, Vec<[u8; CHUNK
     cp.eval_chunk(&[], 0, len, &mut f, &mut m);
     (f, m)
 }
+/// Single-instruction programs over PRE-FILLED register slabs: with several instructions CBMC
+/// unfolds every arm of the interpreter loop for every program slot (the instruction's enum
+/// tag is read back from the Vec), which exceeds 10 min; one instruction per harness keeps
+/// each obligation to seconds. Registers hold (x, y) / (p, q) in rows 0 and 1.
+fn run1(ins: Instr, f_regs: usize, m_regs: usize, fx: [f64; 2], fy: [f64; 2], mx: [u8; 2], my: [u8; 2]) -> (Vec<[f64; CHUNK]>, Vec<[u8; CHUNK]>) {
+    let cp = pred(vec![ins], 0, f_regs, m_regs);
+    let mut f = vec![[0f64; CHUNK]; f_regs.max(1)];
+    let mut m = vec![[0u8; CHUNK]; m_regs.max(1)];
+    if f_regs >= 2 {
+        f[0][0] = fx[0];
+        f[0][1] = fx[1];
+        f[1][0] = fy[0];
+        f[1][1] = fy[1];
+    }
+    if m_regs >= 2 {
+        m[0][0] = mx[0];
+        m[0][1] = mx[1];
+        m[1][0] = my[0];
+        m[1][1] = my[1];
+    }
+    cp.eval_chunk(&[], 0, 2, &mut f, &mut m);
+    (f, m)
+}
 /// D7: where IEEE comparison and Arrow's total order differ
 fn d7_class(x: f64, y: f64) -> bool {
     x.is_nan() || y.is_nan() || (x == 0.0 && y == 0.0)
@@ -95,15 +118,20 @@ macro_rules! shape_harness {
         #[kani::proof]
         #[kani::unwind(4)]
         fn $name() {
-            let (x, y): (f64, f64) = (kani::any(), kani::any());
-            kani::assume(!d7_class(x, y));
-            let op = any_cmp();
+            // two rows with independent values: a swapped or shifted operand would show
+            let (x0, y0, x1, y1): (f64, f64, f64, f64) = (kani::any(), kani::any(), kani::any(), kani::any());
             let a: fn(f64) -> Src = $a;
             let b: fn(f64) -> Src = $b;
-            let cp = pred(vec![Instr::LitF64 { v: x, dst: 0 }, Instr::LitF64 { v: y, dst: 1 }, Instr::CmpF64 { a: a(x), b: b(y), op, dst: 0 }], 0, 2, 1);
-            let (_f, m) = run(&cp, 2);
-            assert!((m[0][0] != 0) == interp_f64(op, x, y));
-            assert!((m[0][1] != 0) == interp_f64(op, x, y));
+            // a literal operand is the same for both rows
+            let lit_a = matches!(a(0.0), Src::LitF64(_));
+            let lit_b = matches!(b(0.0), Src::LitF64(_));
+            kani::assume(!lit_a || x0.to_bits() == x1.to_bits());
+            kani::assume(!lit_b || y0.to_bits() == y1.to_bits());
+            kani::assume(!d7_class(x0, y0) && !d7_class(x1, y1));
+            let op = any_cmp();
+            let (_f, m) = run1(Instr::CmpF64 { a: a(x0), b: b(y0), op, dst: 2 }, 2, 3, [x0, x1], [y0, y1], [0; 2], [0; 2]);
+            assert!((m[2][0] != 0) == interp_f64(op, x0, y0));
+            assert!((m[2][1] != 0) == interp_f64(op, x1, y1));
         }
     };
 }
@@ -137,21 +165,28 @@ macro_rules! arith_harness {
         #[kani::proof]
         #[kani::unwind(4)]
         fn $name() {
-            let (x, y): (f64, f64) = (kani::any(), kani::any());
-            kani::assume(x.abs() <= 1.0e150 && y.abs() <= 1.0e150);
+            let (x0, y0, x1, y1): (f64, f64, f64, f64) = (kani::any(), kani::any(), kani::any(), kani::any());
+            kani::assume(x0.abs() <= 1.0e150 && y0.abs() <= 1.0e150 && x1.abs() <= 1.0e150 && y1.abs() <= 1.0e150);
             let f: fn(f64, f64) -> f64 = $f;
-            let want = f(x, y);
-            let cp = pred(vec![Instr::LitF64 { v: x, dst: 0 }, Instr::LitF64 { v: y, dst: 1 }, Instr::Arith { op: $op, a: 0, b: 1, dst: 2 }], 0, 3, 0);
-            let (f, _m) = run(&cp, 2);
-            assert!(f[2][0].to_bits() == want.to_bits());
-            assert!(f[2][1].to_bits() == want.to_bits());
-            assert!(f[0][0].to_bits() == x.to_bits() && f[1][0].to_bits() == y.to_bits()); // operands untouched
+            let (fr, _m) = run1(Instr::Arith { op: $op, a: 0, b: 1, dst: 2 }, 3, 0, [x0, x1], [y0, y1], [0; 2], [0; 2]);
+            assert!(fr[2][0].to_bits() == f(x0, y0).to_bits());
+            assert!(fr[2][1].to_bits() == f(x1, y1).to_bits());
+            assert!(fr[0][0].to_bits() == x0.to_bits() && fr[1][1].to_bits() == y1.to_bits()); // operands untouched
         }
     };
 }
 arith_harness!(c06_arith_f64_add, BinaryOp::Add, |x, y| x + y);
 arith_harness!(c06_arith_f64_sub, BinaryOp::Subtract, |x, y| x - y);
 arith_harness!(c06_arith_f64_mul, BinaryOp::Multiply, |x, y| x * y);
+/// LitF64 fills its register with the literal
+#[kani::proof]
+#[kani::unwind(4)]
+fn c06_lit_f64_fills_register() {
+    let v: f64 = kani::any();
+    let (fr, _m) = run1(Instr::LitF64 { v, dst: 1 }, 2, 0, [1.0, 2.0], [3.0, 4.0], [0; 2], [0; 2]);
+    assert!(fr[1][0].to_bits() == v.to_bits() && fr[1][1].to_bits() == v.to_bits());
+    assert!(fr[0][0] == 1.0 && fr[0][1] == 2.0);
+}
 
 // ---------------------------------------------------------------- C02 / O1 mask algebra
 /// And / Or / Not over 0/1 masks: d == x&y / x|y / 1-x, operands untouched, for all
@@ -163,22 +198,11 @@ macro_rules! mask_harness {
         #[kani::proof]
         #[kani::unwind(4)]
         fn $name() {
-            let (p, q): (bool, bool) = (kani::any(), kani::any());
-            let cp = pred(
-                vec![
-                    Instr::CmpI64 { a: Src::LitI64(p as i64), b: Src::LitI64(1), op: Cmp::Eq, dst: 0 },
-                    Instr::CmpI64 { a: Src::LitI64(q as i64), b: Src::LitI64(1), op: Cmp::Eq, dst: 1 },
-                    $last,
-                ],
-                2,
-                0,
-                3,
-            );
-            let (_f, m) = run(&cp, 2);
+            let (p0, q0, p1, q1): (bool, bool, bool, bool) = (kani::any(), kani::any(), kani::any(), kani::any());
+            let (_f, m) = run1($last, 0, 3, [0.0; 2], [0.0; 2], [p0 as u8, p1 as u8], [q0 as u8, q1 as u8]);
             let f: fn(bool, bool) -> bool = $want;
-            let want = f(p, q);
-            assert!(m[2][0] == want as u8 && m[2][1] == want as u8);
-            assert!(m[0][0] == p as u8 && m[1][0] == q as u8);
+            assert!(m[2][0] == f(p0, q0) as u8 && m[2][1] == f(p1, q1) as u8);
+            assert!(m[0][0] == p0 as u8 && m[1][1] == q1 as u8);
         }
     };
 }
